@@ -237,9 +237,13 @@ def run_arb_case(case, judged):
         st["held"][i] = r
         return r
 
+    from vmon.simkit import reset_plan, drive_reset
+    resets = reset_plan(case["cycles"])
+
     async def bench(ctx):
         for c in range(case["cycles"]):
             mon.cycle = c
+            drive_reset(ctx, c in resets)
             reqs = [drive(i, c) for i in range(n)]
             for i, r in enumerate(reqs):
                 for k, v in r.items():
@@ -355,6 +359,10 @@ def run_arb_case(case, judged):
                           lambda: f"initiator {i} has requested continuously while {st['waiting'][i]} other grants happened")
             mon.bin(f"state:n{n}", (o, mask, busy))
             st["owner"], st["busy"], st["mask"] = o, busy, mask
+            if c in resets:
+                # warm reset: the grant returns to the first slot at this edge, whatever the requests are
+                st["owner"], st["waiting"] = None, [None] * n
+                mon.count("warm_resets")
             await ctx.tick()
 
     simulate(Top({"arb": arb}), bench, mon)
